@@ -37,6 +37,11 @@ def plans(tier):
 def run(tier):
     res = chancheck.campaign("C03", plans(tier), nontrivial,
                              "disconnection (empty/disconnected results, blocked receives woken by the last drop)")
+    # the descriptor-level account (shared descriptors of clones, references in flight, cascading destruction of
+    # queues, process exit) agrees with the handle-level predicates the behaviours above were generated from
+    uh = [("q", dict(chans=2, procs=2, maxops=6))] if tier == "quick" else [
+        ("t2", dict(chans=2, procs=2, maxops=8)), ("t3", dict(chans=3, procs=2, maxops=5))]
+    chancheck.add_unix_handles("C03", res, chancheck.workdir("c03"), uh)
     res["assumptions"] = ["acyclic channel families (a receiver travels only over a channel with a smaller id)",
                           "agent 1 is a thread or a spawned process; its exit is a real thread end / process exit",
                           "a receive counts as blocked after 15 ms without returning"]
